@@ -101,4 +101,13 @@ theorem runNextOp_eq (r : Regs) (s : Bus.State) :
     simp only [bind, Except.bind]
     cases runOp Cpu.busOps (Gen.decode b0 b1 b2).1 r s (Gen.decode b0 b1 b2).2.1 <;> rfl
 
+/-- toy bus used in examples: a total byte memory -/
+def toyBus : BusOps (Nat → Nat) :=
+  ⟨fun m a => .ok (m a % 256), fun m a v => .ok (fun x => if x = a then v else m x)⟩
+
+theorem toyBus_bytes : ByteBus toyBus := by
+  intro m a v h
+  simp only [toyBus, Except.ok.injEq] at h
+  omega
+
 end GbVerif.C05
